@@ -608,3 +608,92 @@ Proof.
 Qed.
 Example solve_quadratic_ex : eps14 <= Rabs (0 * 0 - 4 * 1 * -1).
 Proof. unfold eps14. rewrite Rabs_right; lra. Qed.
+
+(* ------------------------------------------------------------------ roots: the whole comprehension *)
+Lemma roots_list (t : R) (n : nat) :
+  List.length (m_roots_angles R RO t n) = n /\ m_root_radius_normalized R RO = 1 /\
+  forall th, In th (m_roots_angles R RO t n) -> cpow (cos th, sin th) n = (cos t, sin t).
+Proof.
+  unfold m_roots_angles. split; [now rewrite map_length, seq_length|]. split; [reflexivity|].
+  intros th H. apply in_map_iff in H as [k [<- Hk]]. apply in_seq in Hk.
+  cbn [oZ RO Rops]. rewrite <- !INR_IZR_INZ.
+  apply (roots_power t n k). lia.
+Qed.
+
+(* ------------------------------------------------------------------ degenerate inputs *)
+Lemma n3_zero_iff a b c : n3 a b c = 0 <-> a * a + b * b + c * c = 0.
+Proof.
+  unfold n3. split; intros H.
+  - apply sqrt_eq_0 in H; nra.
+  - replace (a * a + (b * b + (c * c + 0))) with 0 by lra. apply sqrt_0.
+Qed.
+Lemma sq3_zero a b c : a * a + b * b + c * c = 0 -> a = 0 /\ b = 0 /\ c = 0.
+Proof. intros H. repeat split; nra. Qed.
+
+(* cotan on degenerate input: coincident points (a zero vector is normalised) raise FloatingPointError;
+   collinear distinct points do not raise: the value is (+-1) / 0 - a division by zero (inf in binary64) *)
+Lemma cotan_degenerate (a0 a1 a2 b0 b1 b2 c0 c1 c2 : R) :
+  let u0 := a0 - b0 in let u1 := a1 - b1 in let u2 := a2 - b2 in
+  let v0 := c0 - b0 in let v1 := c1 - b1 in let v2 := c2 - b2 in
+  (u0 * u0 + u1 * u1 + u2 * u2 = 0 \/ v0 * v0 + v1 * v1 + v2 * v2 = 0 ->
+   g_cotan R RO [a0; a1; a2] [b0; b1; b2] [c0; c1; c2] = Raise FloatingPoint) /\
+  (u0 * u0 + u1 * u1 + u2 * u2 <> 0 -> v0 * v0 + v1 * v1 + v2 * v2 <> 0 ->
+   sumsq (g_cross R RO [u0; u1; u2] [v0; v1; v2]) = 0 ->
+   exists c, (c = 1 \/ c = -1) /\ g_cotan R RO [a0; a1; a2] [b0; b1; b2] [c0; c1; c2] = Ret (c / 0)).
+Proof.
+  cbv zeta.
+  set (u0 := a0 - b0). set (u1 := a1 - b1). set (u2 := a2 - b2).
+  set (v0 := c0 - b0). set (v1 := c1 - b1). set (v2 := c2 - b2).
+  unfold g_cotan. cbv zeta. cbn [vsub map2 osub RO Rops]. fold u0 u1 u2 v0 v1 v2.
+  destruct (normalized3 u0 u1 u2) as [NU1 NU0]. destruct (normalized3 v0 v1 v2) as [NV1 NV0]. cbv zeta in *.
+  split.
+  - intros [H|H].
+    + rewrite NU0 by (apply n3_zero_iff; exact H). reflexivity.
+    + destruct (Req_dec (n3 u0 u1 u2) 0) as [E|E]; [rewrite NU0 by exact E; reflexivity|].
+      rewrite NU1 by exact E. cbn [bind]. rewrite NV0 by (apply n3_zero_iff; exact H). reflexivity.
+  - intros HU HV HS.
+    assert (EU : n3 u0 u1 u2 <> 0) by (intros Q; apply n3_zero_iff in Q; contradiction).
+    assert (EV : n3 v0 v1 v2 <> 0) by (intros Q; apply n3_zero_iff in Q; contradiction).
+    rewrite NU1, NV1 by assumption. cbn [bind]. rewrite g_norm_spec by discriminate. cbn [bind nrm].
+    pose proof (n3_sq u0 u1 u2) as SU. pose proof (n3_sq v0 v1 v2) as SV.
+    set (n1 := n3 u0 u1 u2) in *. set (n2 := n3 v0 v1 v2) in *.
+    assert (SS : sumsq (g_cross R RO [u0 / n1; u1 / n1; u2 / n1] [v0 / n2; v1 / n2; v2 / n2])
+                 = sumsq (g_cross R RO [u0; u1; u2] [v0; v1; v2]) / ((n1 * n2) * (n1 * n2))).
+    { rewrite !cross_expansion, !sumsq3. field. auto. }
+    rewrite SS, HS. replace (0 / (n1 * n2 * (n1 * n2))) with 0 by (field; auto). rewrite sqrt_0.
+    eexists. split; [|reflexivity].
+    (* cosine^2 = 1 by Lagrange *)
+    set (c := vdot RO [u0 / n1; u1 / n1; u2 / n1] [v0 / n2; v1 / n2; v2 / n2]).
+    assert (C2 : c * c = 1).
+    { rewrite cross_expansion, sumsq3 in HS.
+      assert (L : (u0 * v0 + u1 * v1 + u2 * v2) * (u0 * v0 + u1 * v1 + u2 * v2) = (n1 * n1) * (n2 * n2)) by (rewrite SU, SV; nra).
+      unfold c. cbv [vdot vsum vmul map2 fold_right RO Rops omul oadd oZ zero].
+      replace ((u0 / n1 * (v0 / n2) + (u1 / n1 * (v1 / n2) + (u2 / n1 * (v2 / n2) + 0))) *
+               (u0 / n1 * (v0 / n2) + (u1 / n1 * (v1 / n2) + (u2 / n1 * (v2 / n2) + 0))))
+        with ((u0 * v0 + u1 * v1 + u2 * v2) * (u0 * v0 + u1 * v1 + u2 * v2) / ((n1 * n1) * (n2 * n2))) by (field; auto).
+      rewrite L. field. auto. }
+    destruct (Rle_dec 0 c); [left|right]; nra.
+Qed.
+
+(* circumcenter on degenerate input: coincident or collinear points raise FloatingPointError
+   (a zero vector is normalised in face_basis) *)
+Lemma circumcenter_degenerate (a0 a1 a2 b0 b1 b2 c0 c1 c2 : R) :
+  sumsq (g_cross R RO [b0 - a0; b1 - a1; b2 - a2] [c0 - a0; c1 - a1; c2 - a2]) = 0 ->
+  g_circumcenter R RO [a0; a1; a2] [b0; b1; b2] [c0; c1; c2] = Raise FloatingPoint.
+Proof.
+  intros HS. rewrite cross_expansion, sumsq3 in HS. apply sq3_zero in HS as [Z0 [Z1 Z2]].
+  unfold g_circumcenter, g_face_basis. cbv zeta. cbn [vsub map2 osub RO Rops].
+  set (e0 := b0 - a0) in *. set (e1 := b1 - a1) in *. set (e2 := b2 - a2) in *.
+  set (f0 := c0 - a0) in *. set (f1 := c1 - a1) in *. set (f2 := c2 - a2) in *.
+  destruct (normalized3 e0 e1 e2) as [N1 N0]. cbv zeta in *.
+  destruct (Req_dec (n3 e0 e1 e2) 0) as [E|E]; [rewrite N0 by exact E; reflexivity|].
+  rewrite N1 by exact E. cbn [bind]. rewrite cross_expansion.
+  set (n1 := n3 e0 e1 e2) in *.
+  match goal with |- context [vec_normalized R RO [?w0; ?w1; ?w2] L2] =>
+    destruct (normalized3 w0 w1 w2) as [_ W0]; cbv zeta in W0; rewrite W0; [reflexivity|] end.
+  apply n3_zero_iff.
+  replace (e1 / n1 * f2 - e2 / n1 * f1) with ((e1 * f2 - e2 * f1) / n1) by (field; auto).
+  replace (e2 / n1 * f0 - e0 / n1 * f2) with ((e2 * f0 - e0 * f2) / n1) by (field; auto).
+  replace (e0 / n1 * f1 - e1 / n1 * f0) with ((e0 * f1 - e1 * f0) / n1) by (field; auto).
+  rewrite Z0, Z1, Z2. field. auto.
+Qed.
